@@ -38,6 +38,8 @@ def scenario(tA, tB, nA, nB, c0, c1, ts):
         if rsub[k] == 2:
             W.subscribe(mm, R[k], ALL)
     mm.wlist = [R[0].conn, R[1].conn, A.conn, B.conn]
+    if sh("r1fail", 0):
+        R[1].conn.fail_after = sh("r1fail") - 1
     if sh("xdrop", 0):
         W.subscribe(mm, X, tA)      # X is not in wlist: every A frame is dropped for it -> FAILED_MESSAGE
     with disable_message_validation():
@@ -61,6 +63,15 @@ def scenario(tA, tB, nA, nB, c0, c1, ts):
                 mm.send_client_info(A)
     for k in range(2):
         c = R[k].conn
+        if k == 1 and sh("r1fail", 0):
+            # a frame may be cut only by a send failure, and then the connection is closed and forgotten
+            if len(c.calls) > sh("r1fail") - 1:
+                return False, "bytes were written after the failing send"
+            if c.ok_calls >= sh("r1fail") - 1 and c.fail_after is not None and len(c.calls) == sh("r1fail") - 1:
+                attempted = c.closed
+                if W._contains(list(mm.modules.values()), R[1]) == c.closed:
+                    return False, "table and connection state disagree after a cut frame"
+            continue
         # whole frames: header then exactly the declared number of payload bytes
         try:
             frames = c.frames()
